@@ -317,7 +317,7 @@ async def script(loop, ctx):
         rf = await s.cmd("FETCH 1:* (UID FLAGS RFC822.SIZE INTERNALDATE)") if truths else None
         facts = []
         if rf is not None:
-            for n, d_ in sorted(rf.fetches()):
+            for n, d_ in sorted(rf.fetches(), key=lambda t: t[0]):
                 if "UID" not in d_:
                     continue
                 idt = dt.datetime.strptime(d_["INTERNALDATE"].strip(), "%d-%b-%Y %H:%M:%S %z")
